@@ -67,6 +67,17 @@ S.update({
  "agent6-G-guest-ub": "ar and arp pseudo-registers share one layout template with the ar field widths: the arp Rn selectors become 3 bits, arprnj can hold 4..7 and GetArpRnUnit indexes r[8..11], m[], br[] out of range; needs a 16-bit write to arpN with bit 12 or 15 set and a later arp-addressed instruction",
  "agent6-P-coincidence": "idle computed in Run after the interrupt dispatch as pc == fetch_pc: an entry whose vector address equals the address of the instruction just executed (eint at the vector, second request of the same line latched in that very cycle) marks the core idle inside the handler",
 })
+
+S.update({
+ "agent7-C09": "loop-end test reads a cached loop_end_pc refreshed by BlockRepeat, loop exit, break and at the top of every Run call, but not by RestoreBlockRepeat: bkreprst executed while no loop is active (a handler or subroutine that saved the frame, ran its own loop and restores) leaves the cache at the previous loop's end, so the restored loop never loops back - unless a Run call boundary intervenes",
+ "agent7-C12": "TIMERx_CFG's MU slot bound to a setter that also refreshes COUNTER_L/H; BitFieldCell::set calls every slot's setter on every write: any CFG write with MU = 1 (RES = 0) overwrites software-written COUNTER_L/H with the internal counter",
+ "agent7-C13": "double-word DMA masks the running DSP address in place (current &= ~1) instead of using aligned locals: the parity that the step arithmetic relies on is lost, so odd steps on the DSP side address the wrong double words from the third element on",
+ "agent7-C14": "signal-flag update moved before the handler call; in MaskSemaphore the assignment sits inside the branch that also requires a handler: with no semaphore handler installed (polling host) an unmask that uncovers a pending bit leaves S' = 0",
+ "agent7-C15": "an 'expired' flag remembers that a single-count timer ran out and makes GetMaxSkip/Skip inert; a later mode write (to free-running or auto-restart, without a restart that reaches the clearing line) is honoured by Tick but not by the fast-forward pair",
+ "agent7-C16": "audio queue as a packed array with a count; TakeFrame returns {fifo[0], fifo[1]} relying on zeroed slots behind the queue, Flush only sets count = 0: after a flush a one-word frame carries a stale flushed word as its right channel",
+ "agent7-C17": "Reset skips the 512 KiB wipe unless a dirty flag is set; the flag is raised by WriteWord and when the raw pointer is FETCHED, not when the host writes through a pointer it kept: such writes survive Reset if the emulator itself stored nothing in between",
+ "agent7-C18": "Ahbm::Read32 binds the queue front by const reference, pops, then returns it: every 128th unit read through one AHBM channel reads 4 bytes of a just-freed deque block (functionally invisible, ASan/valgrind only)",
+})
 root = os.path.join(os.path.dirname(os.path.abspath(__file__)), "..", "seeded")
 for k, v in S.items():
     p = os.path.join(root, k, "meta.json")
